@@ -22,6 +22,9 @@
 #include <asmjit/x86.h>
 #include <asmjit/a64.h>
 #include <asmjit/core/rastack_p.h>
+#include <unistd.h>
+#include <sys/wait.h>
+#include <sys/resource.h>
 #include <cstdio>
 #include <cstring>
 #include <cinttypes>
@@ -235,7 +238,7 @@ static void compiled_frame(const Cmd& c, GenT&& gen) {
   Error ge = gen(cc, fn);
   if (ge != Error::kOk || !fn) { printf("C %u gen\n", unsigned(ge)); return; }
   Error fe = cc.run_passes();
-  if (fe != Error::kOk) { printf("C %u passes\n", unsigned(fe)); return; }
+  if (fe != Error::kOk) { printf(fe == Error::kOutOfMemory ? "C 1 diverges out-of-memory\n" : "C %u passes\n", unsigned(fe)); return; }
   const FuncFrame& f = fn->frame();
   const FuncDetail& fd = fn->detail();
   unsigned attrs = (f.has_preserved_fp() ? 1 : 0) | (f.has_func_calls() ? 2 : 0) | (f.has_indirect_branch_protection() ? 4 : 0) |
@@ -264,15 +267,18 @@ static void compiled_frame(const Cmd& c, GenT&& gen) {
   bool pm = insts.size() >= pro.size() + epi.size(), em = pm;
   for (size_t i = 0; pm && i < pro.size(); i++) if (inst_text(insts[i], arch) != pro[i]) pm = false;
   for (size_t i = 0; em && i < epi.size(); i++) if (inst_text(insts[insts.size() - epi.size() + i], arch) != epi[i]) em = false;
-  unsigned unsaved = 0, badsp = 0, spacc = 0;
+  unsigned unsaved = 0, badsp = 0, spacc = 0, uninit = 0;
+  std::vector<bool> local_init(size_t(f.local_stack_size()) + 64, false);   // bytes of the local area written so far (straight-line code)
   std::string detail = "-";
   uint32_t spid = c.arch == 2 ? 31u : 4u;
   size_t lo = pm ? pro.size() : 0, hi = em ? insts.size() - epi.size() : insts.size();
   for (size_t i = 0; i < insts.size(); i++) {
     InstNode* in = insts[i];
     InstRWInfo rw;
+    memset(&rw, 0, sizeof(rw));
     BaseInst bi(in->inst_id(), in->options(), in->extra_reg());
-    if (InstAPI::query_rw_info(arch, bi, in->operands().data(), in->op_count(), &rw) == Error::kOk) {
+    bool rw_ok = InstAPI::query_rw_info(arch, bi, in->operands().data(), in->op_count(), &rw) == Error::kOk;
+    if (rw_ok) {
       for (size_t k = 0; k < in->op_count() && k < rw.op_count(); k++) {
         const Operand_& op = in->operands()[k];
         if (op.is_reg() && rw.operand(k).is_write()) {
@@ -299,19 +305,41 @@ static void compiled_frame(const Cmd& c, GenT&& gen) {
                   (off >= int64_t(f.local_stack_offset()) && off + sz <= int64_t(f.local_stack_offset()) + int64_t(f.local_stack_size())) ||
                   (f.sa_offset_from_sp() != FuncFrame::kTagInvalidOffset && off >= int64_t(f.sa_offset_from_sp()) &&
                    off + sz <= int64_t(f.sa_offset_from_sp()) + int64_t(fd.arg_stack_size()));
+        // inside the stack-argument area an access must start at the offset FuncDetail assigned to some stack-passed argument
+        if (ok && f.sa_offset_from_sp() != FuncFrame::kTagInvalidOffset && off >= int64_t(f.sa_offset_from_sp()) &&
+            !(off + sz <= int64_t(f.call_stack_size())) && !(off >= int64_t(f.local_stack_offset()) && off < int64_t(f.local_stack_offset()) + int64_t(f.local_stack_size()))) {
+          bool hit = false;
+          for (uint32_t ai = 0; ai < fd.arg_count(); ai++) {
+            const FuncValue& av = fd.arg(ai);
+            if (av.is_stack() && int64_t(av.stack_offset()) == off - int64_t(f.sa_offset_from_sp())) hit = true;
+          }
+          if (!hit) ok = false;
+        }
         if (in->inst_id() == (c.arch == 2 ? uint32_t(a64::Inst::kIdAdd) : uint32_t(x86::Inst::kIdLea))) ok = true;   // address computation only
         if (!ok) { if (!badsp) detail = "badsp:" + inst_text(in, arch); badsp++; }
+        // a local slot must be written before it is read (the generated functions are straight-line): catches an argument or
+        // spill that the prolog/allocator stored at another offset than the one the body reads
+        int64_t lo_l = int64_t(f.local_stack_offset()), hi_l = lo_l + int64_t(f.local_stack_size());
+        bool is_addr_only = in->inst_id() == (c.arch == 2 ? uint32_t(a64::Inst::kIdAdd) : uint32_t(x86::Inst::kIdLea));
+        if (!is_addr_only && off >= lo_l && off < hi_l && k < rw.op_count()) {
+          int64_t asz = sz;
+          if (c.arch == 2) { asz = 0; for (size_t q = 0; q < in->op_count(); q++) if (in->operands()[q].is_reg()) asz += in->operands()[q].as<Reg>().size(); if (!asz) asz = 8; }
+          bool rd = rw.operand(k).is_read(), wr = rw.operand(k).is_write();
+          if (c.arch == 2) { uint32_t id = in->inst_id(); wr = (id == a64::Inst::kIdStr || id == a64::Inst::kIdStp || id == a64::Inst::kIdStr_v || id == a64::Inst::kIdStp_v || id == a64::Inst::kIdStur || id == a64::Inst::kIdStur_v || id == a64::Inst::kIdStrb || id == a64::Inst::kIdStrh); rd = !wr; }
+          if (rd && !local_init[size_t(off - lo_l)]) { if (!uninit) detail = "uninit:" + inst_text(in, arch); uninit++; }
+          if (wr) for (int64_t q = off; q < off + asz && q < hi_l; q++) local_init[size_t(q - lo_l)] = true;
+        }
       }
     }
   }
   for (char& ch : detail) if (ch == ' ') ch = '_';
-  printf(" | H %u %u %u %u %u %u %s\n", unsigned(insts.size()), unsigned(pm), unsigned(em), unsaved, badsp, spacc, detail.c_str());
+  printf(" | H %u %u %u %u %u %u %s %u\n", unsigned(insts.size()), unsigned(pm), unsigned(em), unsaved, badsp, spacc, detail.c_str(), uninit);
 }
 
 static void do_compiled(const Cmd& c) {
   Rng rng{c.salt * 0x9E3779B97F4A7C15ull + 0x1234567ull};
   rng.next();
-  unsigned nargs = rng.below(12), ngp = 1 + rng.below(28), nvec = rng.below(24), ncalls = rng.below(3), call_args = rng.below(10);
+  unsigned nargs = rng.below(4) == 0 ? 12 + rng.below(13) : rng.below(12), ngp = 1 + rng.below(28), nvec = rng.below(24), ncalls = rng.below(3), call_args = rng.below(13);
   bool fp = rng.below(3) == 0, avx = rng.below(3) == 0, big_local = rng.below(4) == 0;
   FuncSignature sig;
   sig.set_call_conv_id(CallConvId(c.cc));
@@ -322,6 +350,19 @@ static void do_compiled(const Cmd& c) {
   callee.set_ret(TypeId::kUIntPtr);
   for (unsigned i = 0; i < call_args; i++) callee.add_arg(TypeId::kUIntPtr);
   if (c.arch == 2) {
+    // The a64 Compiler can diverge (emit_args_assignment emits moves for ever, unbounded memory) for functions with stack-passed
+    // arguments and an over-aligned stack slot: run AArch64 compilations in a child with a memory and time limit.
+    fflush(stdout);
+    pid_t pid = fork();
+    if (pid != 0) {
+      int st = 0;
+      if (pid < 0 || waitpid(pid, &st, 0) < 0 || !WIFEXITED(st) || WEXITSTATUS(st) != 0)
+        printf("C 1 diverges nargs=%u\n", nargs);
+      return;
+    }
+    struct rlimit rl; rl.rlim_cur = rl.rlim_max = 1ull << 30; setrlimit(RLIMIT_AS, &rl);
+    alarm(20);
+    bool done = false;
     compiled_frame<a64::Compiler>(c, [&](a64::Compiler& cc, FuncNode*& fn) -> Error {
       fn = cc.add_func(sig);
       if (!fn) return Error::kInvalidArgument;
@@ -331,7 +372,7 @@ static void do_compiled(const Cmd& c) {
       for (unsigned i = 0; i < ngp; i++) { a64::Gp r = cc.new_gp64(); cc.mov(r, uint64_t(i + 1)); v.push_back(r); }
       std::vector<a64::Vec> x;
       for (unsigned i = 0; i < nvec; i++) { a64::Vec r = cc.new_vec128(); cc.movi(r.b16(), i & 0xFF); x.push_back(r); }
-      if (big_local) { a64::Mem m = cc.new_stack(64 + 16 * rng.below(40), 16); a64::Gp t = cc.new_gp64(); cc.ldr(t, m); v.push_back(t); }
+      if (big_local) { a64::Mem m = cc.new_stack(64 + 16 * rng.below(40), rng.below(3) == 0 ? 32 : 16); a64::Gp t = cc.new_gp64(); cc.mov(t, 77); cc.str(t, m); a64::Gp u = cc.new_gp64(); cc.ldr(u, m); v.push_back(u); }
       for (unsigned k = 0; k < ncalls; k++) {
         a64::Gp target = cc.new_gp64(); cc.mov(target, uint64_t(0x1000 + k));
         InvokeNode* inv = nullptr;
@@ -346,6 +387,9 @@ static void do_compiled(const Cmd& c) {
       cc.ret(acc);
       return cc.end_func();
     });
+    done = true;
+    fflush(stdout);
+    _exit(done ? 0 : 1);
   }
   else {
     compiled_frame<x86::Compiler>(c, [&](x86::Compiler& cc, FuncNode*& fn) -> Error {
@@ -358,7 +402,7 @@ static void do_compiled(const Cmd& c) {
       for (unsigned i = 0; i < ngp; i++) { x86::Gp r = cc.new_gpz(); cc.mov(r, i + 1); v.push_back(r); }
       std::vector<x86::Vec> x;
       for (unsigned i = 0; i < nvec; i++) { x86::Vec r = cc.new_xmm(); if (avx) cc.vpxor(r, r, r); else cc.pxor(r, r); x.push_back(r); }
-      if (big_local) { x86::Mem m = cc.new_stack(64 + 16 * rng.below(40), rng.below(2) ? 32 : 16); x86::Gp t = cc.new_gpz(); cc.mov(t, m); v.push_back(t); }
+      if (big_local) { x86::Mem m = cc.new_stack(64 + 16 * rng.below(40), rng.below(2) ? 32 : 16); x86::Gp t = cc.new_gpz(); cc.mov(t, 77); cc.mov(m, t); x86::Gp u = cc.new_gpz(); cc.mov(u, m); v.push_back(u); }
       for (unsigned k = 0; k < ncalls; k++) {
         InvokeNode* inv = nullptr;
         Error e = cc.invoke(Out(inv), uint64_t(0x1000 + k), callee);
@@ -537,8 +581,145 @@ static void run_native(const Cmd& c) {
   for (uint32_t i = 0; i < kGuard && !why[0]; i += 8) if (base[(nstack_al + i) / 8] != 0x6A6A000000000000ull + i) snprintf(why, sizeof(why), "caller-frame-clobbered +%u", i);
   if (why[0]) printf("X %s\n", why); else printf("X ok body_sp_mod64=%u\n", unsigned(ctx.body_sp % 64));
 }
+
+// ------------------------------------------------------------------------------------------------------------------
+// N ... seed : a function compiled by the real x86::Compiler for the host (SysV x86-64) is executed natively under the same
+// frame monitor: up to 24 integer arguments that all stay live to the end (so stack-passed arguments get no register at
+// entry), optional 32/64-byte aligned stack variable (dynamic alignment, arguments must be MOVED into local slots), register
+// pressure (spills), calls of a real 9-argument helper (call area => local_stack_offset != 0), optional preserved FP.
+// Checked: the returned value (= what the source program computes), rsp, every callee-saved GP register, the caller's frame.
+// ------------------------------------------------------------------------------------------------------------------
+extern "C" __attribute__((noinline)) uint64_t c07_helper9(uint64_t a, uint64_t b, uint64_t c, uint64_t d, uint64_t e, uint64_t f, uint64_t g, uint64_t h, uint64_t i) {
+  volatile uint64_t sink[8];
+  for (int k = 0; k < 8; k++) sink[k] = a * (k + 3);       // uses its own frame (and the red zone) like any callee
+  (void)sink;
+  return a + b + c + d + e + f + g + h + i + 7;
+}
+
+static void run_native_compiled(const Cmd& c) {
+  using namespace x86;
+  Rng rng{c.salt * 0x9E3779B97F4A7C15ull + 0xABCDEFull};
+  rng.next();
+  unsigned nargs = rng.below(25), ngp = rng.below(20), ncalls = rng.below(3);
+  bool fp = rng.below(3) == 0, aligned_local = rng.below(2) == 0;
+  unsigned local_align = rng.below(2) ? 32 : 64;
+  JitRuntime rt;
+  CodeHolder code;
+  code.init(rt.environment());
+  x86::Compiler cc(&code);
+  FuncSignature sig;
+  sig.set_call_conv_id(CallConvId::kCDecl);
+  sig.set_ret(TypeId::kUIntPtr);
+  for (unsigned i = 0; i < nargs; i++) sig.add_arg(TypeId::kUIntPtr);
+  FuncSignature callee;
+  callee.set_call_conv_id(CallConvId::kCDecl);
+  callee.set_ret(TypeId::kUIntPtr);
+  for (unsigned i = 0; i < 9; i++) callee.add_arg(TypeId::kUIntPtr);
+  FuncNode* fn = cc.add_func(sig);
+  if (!fn) { printf("N skip gen\n"); return; }
+  if (fp) fn->frame().set_preserved_fp();
+  // concrete argument values: registers rdi rsi rdx rcx r8 r9, then the stack pattern of the trampoline
+  NativeCtx& ctx = g_ctx;
+  uint64_t salt = c.salt * 0x2545F4914F6CDD1Dull + 99;
+  auto rnd = [&]() { salt ^= salt << 13; salt ^= salt >> 7; salt ^= salt << 17; return salt; };
+  for (int i = 0; i < 16; i++) ctx.gp_in[i] = rnd() | 1;
+  static const unsigned arg_regs[6] = { 7, 6, 2, 1, 8, 9 };
+  std::vector<x86::Gp> v; std::vector<uint64_t> val;
+  for (unsigned i = 0; i < nargs; i++) {
+    x86::Gp a = cc.new_gp64(); fn->set_arg(i, a); v.push_back(a);
+    val.push_back(i < 6 ? ctx.gp_in[arg_regs[i]] : 0x5A5A000000000000ull + 8 * (i - 6));
+  }
+  for (unsigned i = 0; i < ngp; i++) { x86::Gp r = cc.new_gp64(); cc.mov(r, i + 1); v.push_back(r); val.push_back(i + 1); }
+  x86::Mem slot;
+  if (aligned_local) {
+    slot = cc.new_stack(local_align, local_align);
+    x86::Gp t = cc.new_gp64(); cc.mov(t, 0x1122334455ull); cc.mov(slot, t);
+  }
+  for (unsigned k = 0; k < ncalls && !v.empty(); k++) {
+    InvokeNode* inv = nullptr;
+    if (cc.invoke(Out(inv), uint64_t(uintptr_t(&c07_helper9)), callee) != Error::kOk) { printf("N skip invoke\n"); return; }
+    uint64_t r = 7;
+    for (unsigned i = 0; i < 9; i++) { inv->set_arg(i, v[(i + k) % v.size()]); r += val[(i + k) % v.size()]; }
+    x86::Gp rr = cc.new_gp64(); inv->set_ret(0, rr); v.push_back(rr); val.push_back(r);
+  }
+  x86::Gp acc = cc.new_gp64(); cc.xor_(acc, acc);
+  uint64_t expected = 0;
+  for (size_t i = 0; i < v.size(); i++) { cc.add(acc, v[i]); expected += val[i]; }
+  if (aligned_local) { cc.add(acc, slot); expected += 0x1122334455ull; }
+  cc.ret(acc);
+  cc.end_func();
+  if (cc.finalize() != Error::kOk) { printf("N skip finalize\n"); return; }
+  void (*target)() = nullptr;
+  if (rt.add(&target, &code) != Error::kOk) { printf("N skip jit\n"); return; }
+  const FuncFrame& f = fn->frame();
+
+  // trampoline
+  uint32_t nstack = nargs > 6 ? 8 * (nargs - 6) : 0;
+  uint32_t nstack_al = (nstack + 15u) & ~15u;
+  const uint32_t kGuard = 64;
+  ctx.pad = 16 * (rnd() % 8);
+  memset(ctx.gp_out, 0, sizeof(ctx.gp_out));
+  ctx.exit_sp = ctx.call_sp = 0;
+  CodeHolder code2;
+  code2.init(rt.environment());
+  Assembler a(&code2);
+  Gp cx = rbx;
+  auto O = [&](size_t off) { return int32_t(off); };
+  Label L_tgt = a.new_label();
+  a.push(rbx); a.push(rbp); a.push(r12); a.push(r13); a.push(r14); a.push(r15);
+  a.mov(cx, uint64_t(uintptr_t(&ctx)));
+  a.mov(ptr(cx, O(offsetof(NativeCtx, saved_rsp))), rsp);
+  a.and_(rsp, -64);
+  a.sub(rsp, ptr(cx, O(offsetof(NativeCtx, pad))));
+  a.sub(rsp, int32_t(kGuard));
+  for (uint32_t i = 0; i < kGuard; i += 8) { a.mov(rax, uint64_t(0x6A6A000000000000ull + i)); a.mov(ptr(rsp, int32_t(i)), rax); }
+  if (nstack_al) a.sub(rsp, int32_t(nstack_al));
+  for (uint32_t i = 0; i + 8 <= nstack_al; i += 8) { a.mov(rax, uint64_t(0x5A5A000000000000ull + i)); a.mov(ptr(rsp, int32_t(i)), rax); }
+  a.mov(ptr(cx, O(offsetof(NativeCtx, call_sp))), rsp);
+  for (uint32_t i = 0; i < 16; i++) { if (i == Gp::kIdSp || i == Gp::kIdBx) continue; a.mov(Gp::make_r64(i), ptr(cx, O(offsetof(NativeCtx, gp_in) + 8 * i))); }
+  a.mov(rbx, ptr(cx, O(offsetof(NativeCtx, gp_in) + 8 * Gp::kIdBx)));
+  a.call(ptr(L_tgt));
+  a.mov(ptr(rsp, -8), rax);
+  a.mov(rax, uint64_t(uintptr_t(&ctx)));
+  for (uint32_t i = 1; i < 16; i++) { if (i == Gp::kIdSp) continue; a.mov(ptr(rax, O(offsetof(NativeCtx, gp_out) + 8 * i)), Gp::make_r64(i)); }
+  a.mov(rcx, ptr(rsp, -8)); a.mov(ptr(rax, O(offsetof(NativeCtx, gp_out))), rcx);
+  a.mov(ptr(rax, O(offsetof(NativeCtx, exit_sp))), rsp);
+  a.cld(); a.lea(rsi, ptr(rsp, int32_t(nstack_al))); a.lea(rdi, ptr(rax, O(offsetof(NativeCtx, stack_copy)))); a.mov(ecx, kGuard / 8); a.rep().movsq();
+  a.mov(rsp, ptr(rax, O(offsetof(NativeCtx, saved_rsp))));
+  a.vzeroupper();
+  a.pop(r15); a.pop(r14); a.pop(r13); a.pop(r12); a.pop(rbp); a.pop(rbx);
+  a.ret();
+  a.align(AlignMode::kData, 8);
+  a.bind(L_tgt);
+  a.embed_uint64(uint64_t(uintptr_t(target)));
+  void (*tramp)() = nullptr;
+  if (rt.add(&tramp, &code2) != Error::kOk) { printf("N skip jit2\n"); return; }
+  static bool handlers = false;
+  if (!handlers) {
+    static uint8_t altstack[1 << 16];
+    stack_t ss; ss.ss_sp = altstack; ss.ss_size = sizeof(altstack); ss.ss_flags = 0; sigaltstack(&ss, nullptr);
+    struct sigaction sa; memset(&sa, 0, sizeof(sa)); sa.sa_handler = on_fault; sa.sa_flags = SA_ONSTACK | SA_NODEFER;
+    sigaction(SIGSEGV, &sa, nullptr); sigaction(SIGBUS, &sa, nullptr); sigaction(SIGILL, &sa, nullptr); sigaction(SIGFPE, &sa, nullptr);
+    handlers = true;
+  }
+  g_sig = 0;
+  if (sigsetjmp(g_jmp, 1) == 0) tramp();
+  rt.release(tramp); rt.release(target);
+  char shape[160];
+  snprintf(shape, sizeof(shape), "nargs=%u ngp=%u calls=%u fp=%d alignedLocal=%u da=%d localOff=%u callSize=%u", nargs, ngp, ncalls, int(fp),
+           aligned_local ? local_align : 0, int(f.has_dynamic_alignment()), f.local_stack_offset(), f.call_stack_size());
+  if (g_sig) { printf("N fault signal %d [%s]\n", g_sig, shape); return; }
+  char why[200]; why[0] = 0;
+  if (ctx.gp_out[0] != expected) snprintf(why, sizeof(why), "wrong-result expected=%#llx got=%#llx", (unsigned long long)expected, (unsigned long long)ctx.gp_out[0]);
+  if (!why[0] && ctx.exit_sp != ctx.call_sp) snprintf(why, sizeof(why), "sp-after-return %+lld", (long long)(ctx.exit_sp - ctx.call_sp));
+  static const unsigned pres[6] = { 3, 5, 12, 13, 14, 15 };
+  for (unsigned k = 0; k < 6 && !why[0]; k++) if (ctx.gp_out[pres[k]] != ctx.gp_in[pres[k]]) snprintf(why, sizeof(why), "callee-saved-gp %u", pres[k]);
+  for (uint32_t i = 0; i < kGuard && !why[0]; i += 8) if (ctx.stack_copy[i / 8] != 0x6A6A000000000000ull + i) snprintf(why, sizeof(why), "caller-frame-clobbered +%u", i);
+  if (why[0]) printf("N %s [%s]\n", why, shape); else printf("N ok [%s]\n", shape);
+}
 #else
 static void run_native(const Cmd&) { printf("X skip\n"); }
+static void run_native_compiled(const Cmd&) { printf("N skip\n"); }
 #endif
 
 // S n (size align flags usecount)*  ->  S <err> <stack_size> <alignment> <n> then per slot, in the order calculate_stack_frame
@@ -575,6 +756,7 @@ int main() {
     if (n < 15) { if (n >= 1) printf("BAD\n"); continue; }
     if (k == 'F') do_frame(c);
     else if (k == 'C') do_compiled(c);
+    else if (k == 'N') run_native_compiled(c);
     else if (k == 'X') run_native(c);
     else printf("BAD\n");
     fflush(stdout);
